@@ -79,6 +79,9 @@ type (
 	pcapOverIPEndpoint struct {
 		PcapOverIPEndpointInfo
 		cancel func()
+		// protects the counters in PcapOverIPEndpointInfo, they are updated by
+		// the endpoint's own goroutine
+		mtx sync.Mutex
 	}
 	pcapOverIPPacket struct {
 		linkType layers.LinkType
@@ -2272,7 +2275,9 @@ func (mgr *Manager) newPcapOverIPEndpoint(ctx context.Context, address string) *
 				sl := handle.SnapLen()
 				log.Printf("Connection to PCAP-over-IP endpoint %q established (using linkType %s and snaplen %d)\n", endpoint.Address, lt.String(), sl)
 
+				endpoint.mtx.Lock()
 				endpoint.LastConnected = time.Now().UnixNano()
+				endpoint.mtx.Unlock()
 				for {
 					data, ci, err := handle.ReadPacketData()
 					if err != nil {
@@ -2280,12 +2285,16 @@ func (mgr *Manager) newPcapOverIPEndpoint(ctx context.Context, address string) *
 						return
 					}
 					mgr.pcapOverIPPackets <- pcapOverIPPacket{lt, data, ci}
+					endpoint.mtx.Lock()
 					endpoint.ReceivedPackets++
+					endpoint.mtx.Unlock()
 				}
 			}()
+			endpoint.mtx.Lock()
 			if endpoint.LastDisconnected <= endpoint.LastConnected {
 				endpoint.LastDisconnected = time.Now().UnixNano()
 			}
+			endpoint.mtx.Unlock()
 			select {
 			case <-ctx.Done():
 				return
@@ -2296,12 +2305,18 @@ func (mgr *Manager) newPcapOverIPEndpoint(ctx context.Context, address string) *
 	return endpoint
 }
 
+func (e *pcapOverIPEndpoint) info() PcapOverIPEndpointInfo {
+	e.mtx.Lock()
+	defer e.mtx.Unlock()
+	return e.PcapOverIPEndpointInfo
+}
+
 func (mgr *Manager) ListPcapOverIPEndpoints() []PcapOverIPEndpointInfo {
 	c := make(chan []PcapOverIPEndpointInfo)
 	mgr.jobs <- func() {
 		endpoints := make([]PcapOverIPEndpointInfo, 0, len(mgr.pcapOverIPEndpoints))
 		for _, e := range mgr.pcapOverIPEndpoints {
-			endpoints = append(endpoints, e.PcapOverIPEndpointInfo)
+			endpoints = append(endpoints, e.info())
 		}
 		c <- endpoints
 		close(c)
@@ -2324,7 +2339,7 @@ func (mgr *Manager) AddPcapOverIPEndpoint(address string) error {
 			mgr.pcapOverIPEndpoints = append(mgr.pcapOverIPEndpoints, mgr.newPcapOverIPEndpoint(context.Background(), address))
 			endpoints := make([]PcapOverIPEndpointInfo, 0, len(mgr.pcapOverIPEndpoints))
 			for _, e := range mgr.pcapOverIPEndpoints {
-				endpoints = append(endpoints, e.PcapOverIPEndpointInfo)
+				endpoints = append(endpoints, e.info())
 			}
 			mgr.event(Event{
 				Type:                "pcapOverIPEndpointsUpdated",
@@ -2352,7 +2367,7 @@ func (mgr *Manager) DelPcapOverIPEndpoint(address string) error {
 			mgr.pcapOverIPEndpoints = slices.Delete(mgr.pcapOverIPEndpoints, toDelete, toDelete+1)
 			endpoints := make([]PcapOverIPEndpointInfo, 0, len(mgr.pcapOverIPEndpoints))
 			for _, e := range mgr.pcapOverIPEndpoints {
-				endpoints = append(endpoints, e.PcapOverIPEndpointInfo)
+				endpoints = append(endpoints, e.info())
 			}
 			mgr.event(Event{
 				Type:                "pcapOverIPEndpointsUpdated",
